@@ -65,7 +65,7 @@ func genCase(t *rapid.T) (Case, *env.Env) {
 		cfg.Extra = []string{"mup_1"}
 	}
 	c := Case{Target: tg, Cfg: cfg, Kind: rapid.SampledFrom([]string{"stpp", "wvtt"}).Draw(t, "kind"), Region: rapid.SampledFrom([]int{-1, 0, 1}).Draw(t, "region")}
-	c.Langs = rapid.SampledFrom([][]string{{"en"}, {"en", "sv"}, {"sv", "en", "fi"}, {"de"}}).Draw(t, "langs")
+	c.Langs = rapid.SampledFrom([][]string{{"en"}, {"en", "sv"}, {"sv", "en", "fi"}, {"de"}, {"pt-BR"}, {"pt", "pt-BR"}, {"zh-Hans", "en"}}).Draw(t, "langs")
 	c.Lang = rapid.SampledFrom(c.Langs).Draw(t, "lang")
 	c.CueDur = rapid.SampledFrom([]int{0, 0, 1, 10, 100, 500, 900, 999, 1000, 1001, 1500, 1800, 2500, 5000}).Draw(t, "cuedur")
 	tl := refmodel.NewTimeline(e.Asset, e.Asset.Ref, cfg)
